@@ -1,1 +1,20 @@
 //! Differential-driver access to crate-private items (group: guard). See /verif/DESIGN.md.
+//!
+//! Only thin wrappers: the instruction table the executor installs when the delegated-CREATE
+//! guard is selected, generic over the host exactly like the original, so that a driver can step
+//! the real `guarded_create` on a scripted [`Host`] as well as on a real revm context.
+#![allow(missing_docs, missing_debug_implementations, unreachable_pub)]
+
+use revm::{
+    handler::instructions::EthInstructions,
+    interpreter::{Host, interpreter::EthInterpreter},
+};
+use revm_primitives::hardfork::SpecId;
+
+/// `delegated_safety::instructions::gravity_instructions` (instruction table + static gas table).
+pub fn gravity_instructions<CTX>(spec: SpecId) -> EthInstructions<EthInterpreter, CTX>
+where
+    CTX: Host,
+{
+    crate::delegated_safety::gravity_instructions(spec)
+}
